@@ -11,7 +11,7 @@ import random
 
 from lib import common, llcheck, strcheck
 from lib.llcheck import Job, explore
-from lib.strcheck import ALPHABET24, ascii_parts, unicode_parts, build_for, judge_zero
+from lib.strcheck import Part, ALPHABET24, ascii_parts, unicode_parts, build_for, judge_zero
 
 LEVEL = 'model_checking'
 ENTRY = '@harness_lex'
@@ -61,6 +61,10 @@ def run(chk, tier, seed):
         parts += unicode_parts(2)
         bounds = ('all ASCII strings of length <= 3; all strings of length 4 over the 24-symbol alphabet %r; all strings of <= 2 scalar values '
                   'drawn from ASCII, U+00A0, U+00E9, U+20AC, U+1F600' % ALPHABET24.decode())
+    # a leading byte-order mark (U+FEFF) followed by up to two symbolic symbols, and one symbol before it
+    BOM = b'\xef\xbb\xbf'
+    parts += [Part([BOM], ALPHABET24), Part([BOM, None], ALPHABET24), Part([None, BOM], ALPHABET24), Part([BOM, None, None], ALPHABET24)]
+    bounds += '; U+FEFF alone, before one or two symbols of that alphabet, and after one'
     tot = explore(chk, mod, job, parts, nproc=16)
     report(chk, so, tot['violations'])
     if tier == 'thorough':
